@@ -1,3 +1,10 @@
 package binlogreplication
 
 const verifBoundTimeMax = ((838*60+59)*60+59)*1000000 + 999999
+
+// JSON documents: as quick with one more length class each
+const verifBoundJSONMembers = 2
+const verifBoundJSONDepth = 1
+
+var verifBoundJSONKeyLens = []int{0, 1, 255, 256}
+var verifBoundJSONStrLens = []int{0, 1, 127, 128}
